@@ -4,6 +4,7 @@ use crate::out::Sink;
 pub mod c01;
 pub mod c10;
 pub mod fmt;
+pub mod logs;
 pub mod c11;
 pub mod c12;
 pub mod c13;
@@ -13,6 +14,10 @@ pub mod c17;
 pub fn dispatch(prop: &str, ctx: &Ctx, sink: &mut Sink) -> bool {
     match prop {
         "C01" => c01::run(ctx, sink),
+        "C06" => logs::run_c06(ctx, sink),
+        "C15" => logs::run_c15(ctx, sink),
+        "C16" => logs::run_c16(ctx, sink),
+        "C20" => logs::run_c20(ctx, sink),
         "C07" | "C08" | "C09" => fmt::run(prop, ctx, sink),
         "C10" => c10::run(ctx, sink),
         "C11" => c11::run(ctx, sink),
